@@ -144,6 +144,7 @@ def _run_cvc5(smt2, timeout_s):
 # obligations a worker only makes the first attempt, with a third of the budget.  Verdicts are unaffected: undecided stays undecided.
 FULL_LADDERS = int(os.environ.get("PYVC_FULL_LADDERS", "2"))
 FAST_AFTER = int(os.environ.get("PYVC_FAST_AFTER", "5"))
+VERY_FAST_AFTER = int(os.environ.get("PYVC_VERY_FAST_AFTER", "12"))
 _UNDECIDED_HERE = [0]
 
 
@@ -152,6 +153,8 @@ def _work(item):
     t_pre = 0.0
     fails = _UNDECIDED_HERE[0]
     first_budget = Z3_TIMEOUT_MS if fails < FAST_AFTER else max(3000, Z3_TIMEOUT_MS // 3)
+    if fails >= VERY_FAST_AFTER:
+        first_budget = min(first_budget, 3000)      # a changed function with dozens of undecidable obligations: 3 s each
     if isinstance(smt2, tuple):
         # gate-filtered query first: it may only prove; anything else falls through to the full query
         r0, t_pre, info0 = _run_z3(smt2[0], first_budget)
